@@ -31,6 +31,24 @@ def app_cls(ctx):
     return ctx.repo.cls(APP, "ControllerApplication")
 
 
+def roles_of_call(ctx, event, method, table):
+    """{role: value} of a call of the handler ``method``: arguments bound to the handler's *current* parameter list (by
+    position or keyword); a parameter keeps the role of its pinned name, and a renamed parameter the role of its position
+    in the pinned order (``table`` lists the pinned names in declaration order)."""
+    params = [a.arg for a in ctx.repo.func(f"{APP}:ControllerApplication.{method}").node.args.args][1:]
+    bound = dict(event.kwargs)
+    for i, a in enumerate(event.args):
+        if i < len(params):
+            bound[params[i]] = a
+    pinned = list(table)
+    out = {}
+    for i, pn in enumerate(params):
+        role = table.get(pn) or (table[pinned[i]] if i < len(pinned) and pinned[i] not in params else None)
+        if role is not None and pn in bound:
+            out[role] = bound[pn]
+    return out
+
+
 def rx_fields(ctx, v, name, roles):
     cmds = ctx.repo.get(f"bellows.ezsp.v{v}.commands", "COMMANDS")
     if name not in cmds or not isinstance(cmds[name][2], dict):
@@ -88,13 +106,11 @@ def r13_1(ctx):
             if p.terminal != "return" or len(hf) != 1:
                 bad = f"{p.terminal} {p.value!r}; {len(hf)} calls of _handle_frame (response has {len(fl)} fields)"
             else:
-                kw = dict(hf[0].kwargs)
-                params = list(repo.func(f"{APP}:ControllerApplication._handle_frame").node.args.args)[1:]
-                for i, a in enumerate(hf[0].args):
-                    kw[params[i].arg] = a
+                got_roles = roles_of_call(ctx, hf[0], "_handle_frame", PARAMS_INCOMING)
                 for pn, role in PARAMS_INCOMING.items():
-                    if kw.get(pn) != Sym(f"role:{role}"):
-                        bad = f"_handle_frame parameter `{pn}` receives {kw.get(pn)!r}; the v{v} response field of that role is {[fn for fn, r, _ in fl if r == role]}"
+                    if got_roles.get(role) != Sym(f"role:{role}"):
+                        bad = (f"_handle_frame parameter for {role} (`{pn}` on the pinned tree) receives {got_roles.get(role)!r}; the v{v} response field of that role "
+                               f"is {[fn for fn, r, _ in fl if r == role]}")
                         break
             ctx.require(not bad, f"incoming:v{v}", f"v{v} incomingMessageHandler: {bad}", func=f, trace=p.trace(12))
         for fn, r, ty in fl:
@@ -326,11 +342,9 @@ def r13_5(ctx):
                     for i, e in enumerate(evs):
                         if bad:
                             break
-                        kw = dict(e.kwargs)
-                        for j, a in enumerate(e.args):
-                            kw[params[j]] = a
+                        got_roles = roles_of_call(ctx, e, which, table)
                         for pn, role in table.items():
-                            got = kw.get(pn)
+                            got = got_roles.get(role)
                             if role == "STATUS":
                                 ok = isinstance(got, Member) and got.cls.name == "sl_Status" and got.value == 0 or got == Sym("role:STATUS")
                             else:
